@@ -141,6 +141,10 @@ class Report:
             f = self.known.get(self.prop, info["sig"])
             print(f"KNOWN-FINDING: property={self.prop} sig={c} {f.get('what', '')} (seen {info['count']}x)")
         rc = 0
+        # the replay directory of a property holds the replays of its LAST run only (harness.mkknown learns from it)
+        import shutil
+
+        shutil.rmtree(os.path.join(REPLAY_DIR, self.prop), ignore_errors=True)
         if self.violations:
             rc = 1
             d = os.path.join(REPLAY_DIR, self.prop)
